@@ -615,6 +615,21 @@ fn run_case(c: &mut Ctx, case: &Case, offs: &[i32]) {
                     c.fail("to_datetime without offset and timestamp must be NotEnough", &format!("[{}] -> {}", dump, szs));
                 }
             }
+            // to_datetime_with_timezone in the fixed zone of the real offset (the offset field is optional
+            // there): theorems to_datetime_with_timezone_complete_fields / _complete_timestamp /
+            // to_datetime_with_timezone_not_enough_iff
+            if z == off {
+                let want = if suff {
+                    let u = l.checked_sub_offset(FixedOffset::east_opt(off).unwrap()).unwrap();
+                    format!("ok {} {}", sdt(&u), off)
+                } else {
+                    "err NotEnough".to_string()
+                };
+                c.count(if suff { "complete:tz:sufficient" } else { "complete:tz:insufficient" });
+                if sw != want {
+                    c.fail("derived zone-aware fields (to_datetime_with_timezone, fixed zone): wrong resolution", &format!("[{}] real {} tz {} -> {} (expected {})", dump, l, z, sw, want));
+                }
+            }
         }
     }
 }
